@@ -131,16 +131,33 @@ def same(a, b, symbolic):
     return bool(np.abs(a - b).max() <= 1e-12 * max(np.abs(a).max(), 1e-300))
 
 
+PROGRAMS = {
+    # name: steps; 'x'/'y' = Lij with that input, 'E<n>' = the caller edits the arrays returned by call n in place, 'C' = clearcache
+    'edit': ['x', 'E0', 'x'],
+    'interleave': ['x', 'y', 'x', 'y'],
+    'clear': ['x', 'C', 'x'],
+    'edit-miss': ['x', 'E0', 'C', 'x'],
+    'edit-hit': ['x', 'x', 'E1', 'x'],
+    'edit-other': ['x', 'y', 'E1', 'x', 'y'],
+    'edit-both': ['x', 'E0', 'y', 'E1', 'y', 'x'],
+    'edit-clear-hit': ['x', 'C', 'x', 'E1', 'x'],
+    'hit-edit-first': ['x', 'x', 'E0', 'x'],
+    'three': ['x', 'y', 'x', 'E2', 'y', 'E3', 'x'],
+}
+
+
 def scenario(cfg, kind, large):
-    """kind: 'edit' (caller edits returned arrays in place between two identical calls), 'interleave' (another input in
-    between), 'clear' (clearcache in between), 'edit-miss' (edit, then clearcache, then the same input again)"""
+    """a call history (PROGRAMS[kind]) on one long-lived calculator; EVERY answer must equal the answer a fresh calculator
+    (deep copy taken before the history) gives for that input"""
     def fn(src=None):
+        import copy
         calc = get_calc(cfg)
         name = 'hist:%s:%s:%s' % (cfg, kind, 'large' if large else 'std')
         symbolic = src is None
         dim = calc.dim
         calc.clearcache()
         lom2 = 1e-300 if large else 1e8
+        prog = PROGRAMS[kind]
         if symbolic:
             ENG.uf_mode = True
             ENG.allow_hash = True
@@ -168,34 +185,36 @@ def scenario(cfg, kind, large):
             info['probe'] = probes(inputs)
             info['probe_first'] = True
         obs = []
+        args = {'x': x, 'y': y}
         with ctx:
-            L1 = calc.Lij(*x, large_om2=lom2)
-            ref = snapshot(L1)
-            if kind in ('edit', 'edit-miss'):
-                for n, arr in enumerate(L1):
-                    for i in range(dim):
-                        for j in range(dim):
-                            arr[i, j] = arr[i, j] + delta[n][i, j]
-            if kind == 'interleave':
-                Ly = calc.Lij(*y, large_om2=lom2)
-                refy = snapshot(Ly)
-            if kind in ('clear', 'edit-miss'):
-                calc.clearcache()
-            L2 = calc.Lij(*x, large_om2=lom2)
-            for n, tname in enumerate(TENSORS):
-                obs.append(('%s:%s' % (name, tname), same(L2[n], ref[n], symbolic), dict(info, sig='%s:%s' % (kind, tname))))
-            if kind == 'interleave':
-                # and the other input again after x: same as its first answer
-                Ly2 = calc.Lij(*y, large_om2=lom2)
-                for n, tname in enumerate(TENSORS):
-                    obs.append(('%s:y-%s' % (name, tname), same(Ly2[n], refy[n], symbolic), dict(info, sig='%s:y-%s' % (kind, tname))))
-                # the answer for y obtained AFTER x equals the answer of a calculator that never saw x
-                calc.clearcache()
-                Lyf = calc.Lij(*y, large_om2=lom2)
-                for n, tname in enumerate(TENSORS):
-                    obs.append(('%s:y-fresh-%s' % (name, tname), same(Lyf[n], refy[n], symbolic), dict(info, sig='%s:y-fresh-%s' % (kind, tname))))
+            # reference answers: a calculator that has seen nothing else (one deep copy per input)
+            ref = {}
+            for nm in sorted(set(p for p in prog if p in args)):
+                fresh = copy.deepcopy(calc)
+                if symbolic:
+                    fresh.GFcalc = GFstub(fresh)
+                ref[nm] = snapshot(fresh.Lij(*args[nm], large_om2=lom2))
+            results = []
+            ncall = {}
+            for step in prog:
+                if step == 'C':
+                    calc.clearcache()
+                elif step[0] == 'E':
+                    for n, arr in enumerate(results[int(step[1:])]):
+                        for i in range(dim):
+                            for j in range(dim):
+                                arr[i, j] = arr[i, j] + delta[n][i, j]
+                else:
+                    L = calc.Lij(*args[step], large_om2=lom2)
+                    results.append(L)
+                    k = ncall.get(step, 0)
+                    ncall[step] = k + 1
+                    got = snapshot(L)
+                    for n, tname in enumerate(TENSORS):
+                        tag = tname if (step == 'x' and k == ncall.get('x', 0) - 1 and step == prog[-1] and False) else '%s%d-%s' % (step, k, tname)
+                        obs.append(('%s:%s' % (name, tag), same(got[n], ref[step][n], symbolic), dict(info, sig='%s:%s' % (kind, tname))))
             if symbolic:
-                obs.append(('twin:%s:differs-from-y' % name, same(L2[1], calc.Lij(*y, large_om2=lom2)[1], True)))
+                obs.append(('twin:%s:differs-from-y' % name, same(ref['x'][1], copy.deepcopy(calc).Lij(*y, large_om2=lom2)[1], True)))
         return obs
     return fn
 
@@ -210,9 +229,10 @@ def sections(tier):
     secs = []
     cfgs = ['square-1', 'sc-1'] if tier == 'quick' else ['square-1', 'rect2-1', 'sc-1', 'square-2']
     for cfg in cfgs:
-        for kind in ('edit', 'interleave', 'clear', 'edit-miss'):
+        kinds = ['edit', 'interleave', 'clear', 'edit-miss', 'edit-hit', 'edit-other'] if tier == 'quick' else list(PROGRAMS)
+        for kind in kinds:
             for large in (False, True):
-                if large and (tier == 'quick' and cfg != 'square-1'):
+                if large and (tier == 'quick' and (cfg != 'square-1' or kind in ('clear', 'edit-other'))):
                     continue
                 secs.append(S('hist:%s:%s:%s' % (cfg, kind, 'large' if large else 'std'), scenario(cfg, kind, large),
                               budget_s=170 if tier == 'quick' else 1500, timeout_ms=20000, replayer='hist', config=cfg, maxpaths=400))
@@ -240,10 +260,10 @@ def main():
             'both large_om2 branches forced through the threshold argument',
             'save/reload histories are covered by C13',
         ],
-        explanation='Real Lij executed on fully symbolic inputs in call sequences (same input twice with in-place edits of the returned '
-                    'arrays by arbitrary symbolic amounts, another input in between, cache cleared in between); each later answer '
-                    'compared term-wise with the first by z3.',
-        bounds='calculators square-1, rect2-1 (quick) + sc-1, square-2 (thorough); 4 history kinds x 2 omega2 algorithms')
+        explanation='Real Lij executed on fully symbolic inputs in call histories (programs of calls with two inputs, in-place edits of the '
+                    'arrays returned by any earlier call by arbitrary symbolic amounts, cache clears); EVERY answer of the history is '
+                    'compared term-wise by z3 with the answer of a fresh deep copy of the calculator for that input.',
+        bounds='calculators square-1, sc-1 (quick) + rect2-1, square-2 (thorough); histories %s (quick: the first six) x 2 omega2 algorithms' % sorted(PROGRAMS))
     chk.run(sections(chk.tier))
     chk.finish()
 
